@@ -326,22 +326,50 @@ class Check:
         return 0
 
 
-def validate_records(chk, module, cfg, trace_path, out, classify, source, timeout=600, env=None):
+def validate_records(chk, module, cfg, trace_path, out, classify, source, timeout=600, env=None, chunk_bytes=100 << 20):
     """I->S for pure functions: TLC recomputes every record of `trace_path`; BADREC lines are mapped back to
-    records and classified by `classify(record) -> key`. Returns number of records."""
-    e = {"TRACE": trace_path}
-    if env:
-        e.update(env)
-    res = tlc(module, cfg, out, workers=1, env=e, timeout=timeout)
+    records and classified by `classify(record) -> key`. Returns number of records. A trace larger than `chunk_bytes` is
+    validated in several TLC runs (the Json reader holds the whole file in memory)."""
     nrec = sum(1 for _ in open(trace_path))
-    bad = [int(x.strip()) for x in tagged_lines(out, "BADREC")]
-    if not res["ok"] or res["depth"] != nrec + 1:
-        chk.tool_error("%s: trace validation did not consume the trace (depth %s of %s records): %s\n%s"
-                       % (module, res["depth"], nrec, res["error"], res.get("tail", "")[-1200:]))
-        return nrec
+    parts = []          # (path, first record number - 1, records)
+    if os.path.getsize(trace_path) <= chunk_bytes:
+        parts.append((trace_path, 0, nrec))
+    else:
+        with open(trace_path) as f:
+            k, size, n0, n, g = 0, 0, 0, 0, None
+            for line in f:
+                if g is None or size + len(line) > chunk_bytes:
+                    if g is not None:
+                        g.close()
+                        parts.append((pp, n0, n - n0))
+                    k += 1
+                    pp = "%s.part%d" % (trace_path, k)
+                    g, size, n0 = open(pp, "w"), 0, n
+                g.write(line)
+                size += len(line)
+                n += 1
+            g.close()
+            parts.append((pp, n0, n - n0))
+    bad, wall, ok = [], 0.0, True
+    for pp, off, cnt in parts:
+        e = {"TRACE": pp}
+        if env:
+            e.update(env)
+        res = tlc(module, cfg, out, workers=1, env=e, timeout=timeout)
+        wall += res["wall"]
+        if not res["ok"] or res["depth"] != cnt + 1:
+            chk.tool_error("%s: trace validation did not consume the trace (depth %s of %s records, part at %d): %s\n%s"
+                           % (module, res["depth"], cnt, off, res["error"], res.get("tail", "")[-1200:]))
+            ok = False
+        else:
+            bad += [off + int(x.strip()) for x in tagged_lines(out, "BADREC")]
+        if pp != trace_path:
+            os.remove(pp)
+        if not ok:
+            return nrec
     chk.traces += nrec
     chk.extra.setdefault("trace_validation", []).append(
-        dict(module=module, records=nrec, rejected=len(bad), wall_s=round(res["wall"], 1)))
+        dict(module=module, records=nrec, rejected=len(bad), wall_s=round(wall, 1), tlc_runs=len(parts)))
     if bad:
         want = set(bad)
         by = {}
